@@ -47,7 +47,7 @@ CHECKS = {
         technique="Lean 4 proof (invariant over arbitrary schedules) + exhaustive interleaving enumeration of the real code",
         ref="§4 C20"),
     "C03": dict(
-        text="Theorem C03_one_minimal: for EVERY deterministic test f : bytes -> bool (monotone or not), min=1, repeat in {last,always}, no time limit, any max >= 1, repeat-first or not, every well-formed testcase with non-empty atoms, the model of Minimize.reduce ends with f(best minus atom i) = false for every remaining atom i. The follow-up clause is kept as C03_followup_statement (not claimed), refuted by C03_followup_counterexample (decide) and recorded as a finding; C03_followup_partial covers the case where re-splitting reproduces the atoms. Tied to strategies.py by proposal-by-proposal differential execution of the real Minimize.reduce vs the model under every deterministic test for n <= 4 atoms and oracle families on the five real loaders.",
+        text="C03_new_candidate_is_tested (driver world: every candidate not proposed before in the run is handed to the test — the driver never refuses one itself). Theorem C03_one_minimal: for EVERY deterministic test f : bytes -> bool (monotone or not), min=1, repeat in {last,always}, no time limit, any max >= 1, repeat-first or not, every well-formed testcase with non-empty atoms, the model of Minimize.reduce ends with f(best minus atom i) = false for every remaining atom i. The follow-up clause is kept as C03_followup_statement (not claimed), refuted by C03_followup_counterexample (decide) and recorded as a finding; C03_followup_partial covers the case where re-splitting reproduces the atoms. Tied to strategies.py by proposal-by-proposal differential execution of the real Minimize.reduce vs the model under every deterministic test for n <= 4 atoms and oracle families on the five real loaders.",
         note=NOTE + "Non-empty atoms is C06; SHA-512 de-duplication is modelled as equality of contents.",
         technique="Lean 4 proof (loop invariants: tried-set, last-sweep, termination measure) + differential execution of the real strategy",
         ref="§4 C03"),
